@@ -711,6 +711,7 @@ func cmdHoldemRandom(args []string) {
 	fullDeck := fs.Bool("fulldeck", false, "configurations that consume the whole deck when played to the river")
 	watch := fs.Bool("watch", false, "record a call that never returns (HANG) with the state it started from")
 	noBB := fs.Bool("nobb", false, "layouts in which no seat holds the big blind")
+	oddRoles := fs.Bool("oddroles", false, "unusual layouts the engine accepts: small and big blind on any seats, also the dealer's")
 	fs.Parse(args)
 	tw := newTraceWriter(*out)
 	r := rand.New(rand.NewSource(*seed))
@@ -734,6 +735,28 @@ func cmdHoldemRandom(args []string) {
 					keep = append(keep, x)
 				}
 				cfg.Pos[k] = keep
+			}
+		}
+		if *oddRoles {
+			// one dealer; the small blind (one time in four: nobody) and the big blind on seats drawn independently - the dealer may
+			// hold the big blind (seeded change R5l-A: a heads-up shortcut wrong only when the dealer is the big blind), one seat both blinds
+			n := len(cfg.Pos)
+			d, sbS, bbS := r.Intn(n), r.Intn(n), r.Intn(n)
+			if r.Intn(4) == 0 {
+				sbS = -1
+			}
+			for k := range cfg.Pos {
+				ps := []string{}
+				if k == d {
+					ps = append(ps, "dealer")
+				}
+				if k == sbS {
+					ps = append(ps, "sb")
+				}
+				if k == bbS {
+					ps = append(ps, "bb")
+				}
+				cfg.Pos[k] = ps
 			}
 		}
 		if driverStop {
@@ -764,7 +787,7 @@ func cmdHoldemRandom(args []string) {
 				cfg.Bank = append(cfg.Bank, 500+r.Int63n(500))
 			}
 		}
-		ro := randOpts{probeRefusals: *probe, forkActions: *fork, wrongOps: *wrong, rehydrate: *rehy, bbOnly: *bbOnly, passive: *fullDeck, watch: *watch || *noBB, noBB: *noBB}
+		ro := randOpts{probeRefusals: *probe, forkActions: *fork, wrongOps: *wrong, rehydrate: *rehy, bbOnly: *bbOnly, passive: *fullDeck, watch: *watch || *noBB || *oddRoles, noBB: *noBB}
 		h := playRandom(tw, *runBase+i, r, cfg, ro)
 		steps += h.steps
 		if !h.closed() {
